@@ -280,6 +280,9 @@ def run_check(prop, tiers, assumptions, tier, budget_s=None):
             "orig_vs_mutant_pairs": int(stats["check_field_pairs"]),
             "mutations": int(stats["mutations"]),
             "mutations_ineffective": int(stats["mutations_ineffective"]),
+            "field_sweeps_one_mutant_per_signature_of_a_graph":
+                int(stats["sweeps"]),
+            "field_sweep_mutants": int(stats["sweep_mutants"]),
             "distinct_node_kind_field_pairs": len(muts),
             "by_node_kind_and_field": muts,
         },
